@@ -54,6 +54,50 @@ impl DataWriterTrait for RecWriter {
 	}
 }
 
+/// forwards the first `remaining` operations to the real file writer, then only pretends (the crash): positions keep
+/// being simulated so that the writer under test runs to its end
+struct StopAfter {
+	inner: DataWriterFile,
+	remaining: usize,
+	pos: u64,
+}
+impl StopAfter {
+	fn live(&mut self) -> bool {
+		if self.remaining > 0 {
+			self.remaining -= 1;
+			true
+		} else {
+			false
+		}
+	}
+}
+impl DataWriterTrait for StopAfter {
+	fn append(&mut self, blob: &Blob) -> Result<ByteRange> {
+		let at = self.pos;
+		if self.live() {
+			self.inner.append(blob)?;
+		}
+		self.pos += blob.len();
+		Ok(ByteRange::new(at, blob.len()))
+	}
+	fn write_start(&mut self, blob: &Blob) -> Result<()> {
+		if self.live() {
+			self.inner.write_start(blob)?;
+		}
+		Ok(())
+	}
+	fn get_position(&mut self) -> Result<u64> {
+		Ok(self.pos)
+	}
+	fn set_position(&mut self, position: u64) -> Result<()> {
+		if self.live() {
+			self.inner.set_position(position)?;
+		}
+		self.pos = position;
+		Ok(())
+	}
+}
+
 /// abstract region an operation writes, derived from the FINAL file's layout (independent decoder)
 fn label(fmt: &str, op: &Op, layout: &Value) -> String {
 	let at = |k: &str| layout[k][0].as_u64().unwrap_or(u64::MAX);
@@ -157,7 +201,10 @@ pub fn run(input: &str, output: &str, thorough: bool) -> Value {
 	let cases = read_ndjson(input);
 	let mut out = Out::create(output);
 	let rt = tokio::runtime::Builder::new_multi_thread().worker_threads(4).enable_all().build().unwrap();
-	let (mut ncuts, mut nviews, mut nfail, mut npanic) = (0u64, 0u64, 0u64, 0u64);
+	let (mut ncuts, mut nviews, mut nfail, mut npanic, mut nover) = (0u64, 0u64, 0u64, 0u64, 0u64);
+	let scratch = std::path::Path::new("/dev/shm").join(format!("verif_c12_{}", std::process::id()));
+	std::fs::create_dir_all(&scratch).unwrap();
+	let mut prev_final: std::collections::HashMap<String, Vec<u8>> = Default::default();
 	for (ci, case) in cases.iter().enumerate() {
 		let src = source_of(case);
 		let mut w = RecWriter { buf: vec![], pos: 0, ops: vec![] };
@@ -179,16 +226,9 @@ pub fn run(input: &str, output: &str, thorough: bool) -> Value {
 		if !write_ok {
 			continue;
 		}
-		let n = w.ops.len();
-		for k in 0..=n {
-			let mut bs = vec![0usize];
-			if k < n {
-				bs.extend(cuts_of(&w.ops[k], thorough));
-			}
-			for b in bs {
-				let img = image(&w.ops, k, b);
-				let len = img.len();
-				let (outcome, lookups, stream_res, tf, tc, err) = match open_image(&rt, &src.fmt, img) {
+		// what the real reader makes of an on-disk image: fails to open / panics, or a view (lookups + streams recorded)
+		let observe = |img: Vec<u8>| -> (&'static str, Value, Value, String, String, String) {
+			match open_image(&rt, &src.fmt, img) {
 					Err(p) => ("panic", json!([]), json!([]), String::new(), String::new(), p),
 					Ok(Err(e)) => ("fail", json!([]), json!([]), String::new(), String::new(), e),
 					Ok(Ok(reader)) => {
@@ -214,7 +254,18 @@ pub fn run(input: &str, output: &str, thorough: bool) -> Value {
 						let sj = json!({"status":status,"res":st.iter().map(|t| json!([t.0,t.2,t.1,t.3])).collect::<Vec<_>>()});
 						("view", json!(lk), sj, p.tile_format.as_str().to_string(), p.tile_compression.as_str().to_string(), String::new())
 					}
-				};
+				}
+		};
+		let n = w.ops.len();
+		for k in 0..=n {
+			let mut bs = vec![0usize];
+			if k < n {
+				bs.extend(cuts_of(&w.ops[k], thorough));
+			}
+			for b in bs {
+				let img = image(&w.ops, k, b);
+				let len = img.len();
+				let (outcome, lookups, stream_res, tf, tc, err) = observe(img);
 				match outcome {
 					"view" => nviews += 1,
 					"fail" => nfail += 1,
@@ -225,7 +276,45 @@ pub fn run(input: &str, output: &str, thorough: bool) -> Value {
 					"tf":tf,"tc":tc,"err":err.chars().take(120).collect::<String>()}));
 			}
 		}
+		// the same prefixes once more through the REAL file writer, on a path that already holds a complete container of
+		// another tile set (a conversion started over an existing file and interrupted): every 8th case
+		if let Some(old) = prev_final.get(&src.fmt) {
+			if ci % 8 == 0 {
+				let path = scratch.join(format!("over.{}", src.fmt));
+				for k in 0..=n {
+					std::fs::write(&path, old).unwrap();
+					let r = catch(|| {
+						let inner = DataWriterFile::from_path(&path)?;
+						let mut sw = StopAfter { inner, remaining: k, pos: 0 };
+						let mut mem2 = src.mem_reader();
+						rt.block_on(async {
+							if src.fmt == "versatiles" {
+								VersaTilesWriter::write_to_writer(&mut mem2, &mut sw).await
+							} else {
+								PMTilesWriter::write_to_writer(&mut mem2, &mut sw).await
+							}
+						})
+					});
+					let _ = r;
+					let img = std::fs::read(&path).unwrap_or_default();
+					let len = img.len();
+					let (outcome, lookups, stream_res, tf, tc, err) = observe(img);
+					match outcome {
+						"view" => nviews += 1,
+						"fail" => nfail += 1,
+						_ => npanic += 1,
+					}
+					ncuts += 1;
+					nover += 1;
+					out.emit(&json!({"ev":"cut","case":ci,"k":k,"b":0,"over":1,"image_len":len,"outcome":outcome,"lookups":lookups,"stream":stream_res,
+						"tf":tf,"tc":tc,"err":err.chars().take(120).collect::<String>()}));
+				}
+				let _ = std::fs::remove_file(&path);
+			}
+		}
+		prev_final.insert(src.fmt.clone(), w.buf.clone());
 	}
+	let _ = std::fs::remove_dir_all(&scratch);
 	let lines = out.finish();
-	json!({"cases": cases.len(), "events": lines, "cuts": ncuts, "views": nviews, "fails": nfail, "panics": npanic})
+	json!({"cases": cases.len(), "events": lines, "cuts": ncuts, "views": nviews, "fails": nfail, "panics": npanic, "overwrite_cuts": nover})
 }
